@@ -11,6 +11,10 @@
 #include "bev_pre.h"
 #include "bufferevent.c"
 #include "bufferevent_pair.c"
+#define VP_SINK_DISPATCH(fn, b, i, a) do { \
+	if ((fn) == bufferevent_inbuf_wm_cb) bufferevent_inbuf_wm_cb((b), (i), (a)); \
+	else if ((fn) == be_pair_outbuf_cb) be_pair_outbuf_cb((b), (i), (a)); \
+	else VP_ASSERT(0, "harness: unknown evbuffer callback"); } while (0)
 #include "evbuf_sink.h"
 #include "bev_env.h"
 #include "bev_user.h"
@@ -20,7 +24,9 @@ const struct bufferevent_ops bufferevent_ops_socket = { "socket-not-linked", 0, 
 const struct bufferevent_ops bufferevent_ops_filter = { "filter-not-linked", 0, NULL, NULL, NULL, NULL, NULL, NULL, NULL };
 
 #define SRC 0
+#define U_MARK 0x100   /* application-defined event flag */
 #define DST 1
+#define QUEUED(w) ((U_PRIV(w)->deferred.evcb_flags & (EVLIST_ACTIVE | EVLIST_ACTIVE_LATER)) != 0)
 static size_t LEN_IN(int w) { return evbuffer_get_length(u_bev[w]->input); }
 static size_t LEN_OUT(int w) { return evbuffer_get_length(u_bev[w]->output); }
 
@@ -31,6 +37,13 @@ static void setup_pair(int options)
 	int r = bufferevent_pair_new((struct event_base *)&base_obj, options, pair);
 	__CPROVER_assume(r == 0);
 	u_install(0, pair[0]); u_install(1, pair[1]);
+	/* Both deferred callbacks are already queued (an application-defined event is pending on each side): a reachable
+	 * state, and it keeps the reference counts concrete during the symbolic step -- SCHEDULE_DEFERRED takes a reference
+	 * only when it actually queues; a solver-dependent count would make symex walk the "last reference dropped" path
+	 * (unlink + finalize) at every decref. */
+	bufferevent_trigger_event(pair[0], U_MARK, 0);
+	bufferevent_trigger_event(pair[1], U_MARK, 0);
+	VP_ASSERT(vp_defq_n == 2 && U_PRIV(0)->refcnt == 2 && U_PRIV(1)->refcnt == 2, "C19: a queued deferred callback holds one reference");
 	/* install the watermark callback of the receiving side with concrete marks (see C18_watermarks.c: setup) */
 	bufferevent_setwatermark(pair[DST], EV_READ, 0, 1);
 }
@@ -51,13 +64,15 @@ void harness_pair_transfer(void)
 	int ignore = vp_bool(), blocked;
 	setup_pair(0);
 	__CPROVER_assume(S <= (size_t)EV_SSIZE_MAX / 2 && D <= (size_t)EV_SSIZE_MAX / 2);
-	vp_sink_preset(u_bev[SRC]->output, NULL, S);
+	/* arbitrary consistent state: D bytes buffered at the receiver, marks set (suspension follows from them), receiver
+	 * reading, then S bytes of output pending at the sender */
 	vp_sink_preset(u_bev[DST]->input, NULL, D);
-	bufferevent_enable(u_bev[DST], EV_READ);
 	bufferevent_setwatermark(u_bev[DST], EV_READ, low, high);
+	bufferevent_enable(u_bev[DST], EV_READ);
 	bufferevent_setwatermark(u_bev[SRC], EV_WRITE, wlow, 0);
+	vp_sink_preset(u_bev[SRC]->output, NULL, S);
 	check_dst_wm();
-	VP_ASSERT(u_nlog == 0 && vp_defq_n == 0, "C18: no callback so far");
+	VP_ASSERT(u_nlog == 0 && vp_defq_n == 2, "C18: no callback so far");
 
 	be_pair_transfer(u_bev[SRC], u_bev[DST], ignore);
 
@@ -73,10 +88,12 @@ void harness_pair_transfer(void)
 	VP_ASSERT(u_nlog == 0, "C19: pair callbacks must be deferred");
 	VP_ASSERT(U_PRIV(DST)->readcb_pending == (!blocked && D + n >= low), "C18: pair read callback scheduled iff >= low bytes are buffered");
 	VP_ASSERT(U_PRIV(SRC)->writecb_pending == (!blocked && S - n <= wlow), "C18: pair write callback scheduled iff output <= low write mark");
-	VP_ASSERT(U_PRIV(DST)->refcnt == 1 + U_PRIV(DST)->readcb_pending && U_PRIV(SRC)->refcnt == 1 + U_PRIV(SRC)->writecb_pending, "C19: one reference per scheduled deferred callback");
+	VP_ASSERT(U_PRIV(DST)->refcnt == 2 && U_PRIV(SRC)->refcnt == 2 && vp_defq_n == 2, "C19: one reference per queued deferred callback, queued once");
 	vp_run_deferred();
+	/* (a receiver still at/over its high mark re-queues its read callback: bufferevent_inbuf_wm_check) */
+	VP_ASSERT(U_PRIV(DST)->refcnt == 1 + QUEUED(DST) && U_PRIV(SRC)->refcnt == 1 && !QUEUED(SRC), "C19: deferred callbacks drop their reference");
 	VP_ASSERT(u_reads[DST] == (!blocked && D + n >= low) && u_writes[SRC] == (!blocked && S - n <= wlow), "C18: pair callbacks run iff the watermarks say so");
-	VP_ASSERT(u_reads[SRC] == 0 && u_writes[DST] == 0 && u_events[0] == 0 && u_events[1] == 0, "C18: no other callback");
+	VP_ASSERT(u_reads[SRC] == 0 && u_writes[DST] == 0 && u_events[0] == 1 && u_events[1] == 1 && u_last_what[0] == U_MARK && u_last_what[1] == U_MARK, "C18: no other callback");
 	VP_ASSERT(!u_reads[DST] || u_in_at_read[DST] >= low, "C18: read callback saw less than the low watermark");
 	VP_ASSERT_NO_LOCKS("pair transfer");
 	if (blocked) VP_WITNESS("partner at/over its high mark: nothing moved");
